@@ -1,5 +1,5 @@
 (* Specification-side definitions for C06/C07: well-formed stream states (the invariant of
-   the writer operations) and the exact input classes of the recorded findings. *)
+   the writer operations). *)
 From Coq Require Import List ZArith Lia Bool String.
 From GoHls Require Import Lib.MuxSched Model.MuxConcSeq.
 Import ListNotations.
@@ -20,37 +20,15 @@ Record wf_stream (v : variant) (s : stream) : Prop := {
   wf_next : segments s <> [] -> nextSegmentID s = segmentDeleteCount s + zlen (segments s);
   wf_empty : segments s = [] ->
              segmentDeleteCount s = 0 /\ nextSegmentID s = match v with LL => 7 | _ => 0 end;
-  wf_open : segments s <> [] -> nextSegment s <> None
+  wf_open : segments s <> [] -> nextSegment s <> None;
+  (* the window ends with a real segment (gaps are only inserted in front of the first one) *)
+  wf_last : segments s <> [] -> exists id ps d, last (segments s) (Gap 0) = Seg id ps d
 }.
 
 Definition wf_mux (m : mux) : Prop := Forall (wf_stream (m_variant m)) (m_streams m).
 
 (* ids stay far below 2^64 (the model does not wrap nextSegmentID++ itself) *)
 Definition in_range (s : stream) : Prop := nextSegmentID s + 2 < two64.
-
-(* ---- input classes of the findings ---- *)
-Definition last_seg (s : stream) : option seg := nth_error (segments s) (List.length (segments s) - 1).
-
-(* F3a: _HLS_part past the end of the LAST complete segment while the open segment already
-   has a part *)
-Definition f3a_input (s : stream) (M : Z) (P : option Z) : bool :=
-  match P, last_seg s, nextSegment s with
-  | Some p, Some (Seg id ps _), Some ops =>
-      (M =? id) && (zlen ps <=? p) && (1 <=? zlen ops) && negb (M =? nextSegmentID s)
-  | _, _, _ => false
-  end.
-
-(* F3b: _HLS_msn of a listed gap *)
-Definition f3b_input (s : stream) (M : Z) : bool :=
-  (segmentDeleteCount s <=? M) &&
-  match nth_error (segments s) (Z.to_nat (M - segmentDeleteCount s)) with
-  | Some (Gap _) => true
-  | _ => false
-  end.
-
-(* F11: _HLS_msn of the OPEN segment without _HLS_part *)
-Definition f11_input (s : stream) (M : Z) (P : option Z) : bool :=
-  match P with None => M =? nextSegmentID s | Some _ => false end.
 
 (* head of the window: the media sequence number of segments[0] *)
 Definition head_msn (s : stream) : Z := segmentDeleteCount s.
